@@ -6,7 +6,7 @@ import vlib
 from vlib import Case, hx, unhx
 
 PROP = "C13"
-PROOF_FILES = ["Properties/C13.v"]
+PROOF_FILES = ["Properties/C13.v", "Properties/C13tie.v"]
 RULE = ("byte strings through ComputeCRC: all strings of length 0..2 (65 793, complete); single-bit strings (one bit set, "
         "rest zero) and all-zero strings; random strings up to 4 KiB; known-answer vectors; residue calls; a case is "
         "non-trivial when it is a distinct request line (every byte string is inside the property's domain)")
@@ -50,8 +50,8 @@ def _gen_emitted(rng, tier):
     oracles, which compare the emitted bytes - CRC_32 included - with the Spec serialisation"""
     import random as _r, importlib
     out = []
-    for name, keep, th in (("c14", lambda c: c.decides and c.kind.startswith("filter-"), "C13_emitted_section_residue_ok + C14_filter_spec"),
-                           ("c09", lambda c: c.decides, "C13_emitted_section_residue_ok + C09 encode")):
+    for name, keep, th in (("c14", lambda c: c.decides and c.kind.startswith("filter-"), "C13tie_filter_emits_mpeg2_crc (C13_emitted_section_residue_ok + C14_filter_spec)"),
+                           ("c09", lambda c: c.decides, "C13tie_update_data_residue_zero (C13_emitted_section_residue_ok + C09_crc_clause)")):
         try:
             m = importlib.import_module("gen." + name)
         except ImportError:
